@@ -148,6 +148,14 @@ def g_binary(ch: core.Chooser, name: str) -> dict:
         if ch.chance(0.3):  # make ties across operands
             b["const"]["flat"] = (a["const"]["flat"] * 8)[: len(b["const"]["flat"])] if a["const"]["dtype"] == b["const"]["dtype"] else b["const"]["flat"]
     ordering = name in ("less", "less_equal", "greater", "greater_equal", "equal", "not_equal", "maximum", "minimum")
+    if name in ("isclose", "allclose") and ch.sub("asym").chance(0.2):
+        # numpy's test |a-b| <= atol + rtol*|b| is not symmetric: pairs that sit between the two readings
+        base = [9.0, 10.0, 90.0, 100.0, 10.0, 9.0]
+        n_el = int(numpy.prod(shape, dtype=int))
+        fa = [base[i % 6] for i in range(n_el)]
+        fb = [base[(i + 1) % 6] if i % 2 == 0 else base[(i - 1) % 6] for i in range(n_el)]
+        return {"args": [{"const": model.lit_array(numpy.array(fa).reshape(shape), "float64"), "dress": 0},
+                         {"const": model.lit_array(numpy.array(fb).reshape(shape), "float64"), "dress": 0}], "kwargs": {"rtol": 0.1, "atol": 0.0}}
     if name in ("isclose", "allclose") and ch.chance(0.5):
         a = _vals(ch.sub("ia"), shape, "inf")
         b = _vals(ch.sub("ib"), pshape, "inf")
